@@ -160,6 +160,7 @@ func checkC05(c *Ctx) {
 	noUnguardedAssert(c, "C05.1", readFrom)
 	allocBounds(c, "C05.2", ps, scope)
 	readDiscipline(c, "C05.3", "C05.3", "C05.3")
+	ruleVLQ(c, "", "C05.3", "")
 	loopTermination(c, "C05.4", scope)
 	missingTracksRule(c, "C05.5", readFrom)
 }
